@@ -88,3 +88,42 @@ func (e *Env) V2Spend(cs consensus.State, in types.SiacoinElement, fee, pay type
 func (b *Builder) PoolOf() ([]types.Transaction, []types.V2Transaction) {
 	return b.CM.PoolTransactions(), b.CM.V2PoolTransactions()
 }
+
+// TaxAdjustedPayout returns the payout of a v1 contract whose valid outputs sum to target.
+func TaxAdjustedPayout(target types.Currency) types.Currency { return taxAdjustedPayout(target) }
+
+// V1Form builds a signed v1 transaction forming a contract with the given window,
+// funded by the siacoin output (id, value).
+func (e *Env) V1Form(cs consensus.State, id types.SiacoinOutputID, value types.Currency, windowStart, windowEnd uint64, salt byte) types.Transaction {
+	payoutValue := types.Siacoins(10)
+	fc := types.FileContract{
+		WindowStart:        windowStart,
+		WindowEnd:          windowEnd,
+		ValidProofOutputs:  []types.SiacoinOutput{{Value: payoutValue, Address: e.Addr}},
+		MissedProofOutputs: []types.SiacoinOutput{{Value: payoutValue, Address: e.Payees[0]}},
+		UnlockHash:         e.Addr,
+	}
+	fc.FileMerkleRoot[0] = salt
+	fc.Payout = taxAdjustedPayout(payoutValue)
+	txn := types.Transaction{
+		SiacoinInputs:  []types.SiacoinInput{{ParentID: id, UnlockConditions: e.UC}},
+		SiacoinOutputs: []types.SiacoinOutput{{Address: e.Addr, Value: value.Sub(fc.Payout)}},
+		FileContracts:  []types.FileContract{fc},
+	}
+	e.SignV1(cs, &txn)
+	return txn
+}
+
+// V2SpendMulti builds a signed v2 transaction spending several elements (confirmed or
+// ephemeral) into one output back to the key.
+func (e *Env) V2SpendMulti(cs consensus.State, ins []types.SiacoinElement, fee types.Currency) types.V2Transaction {
+	txn := types.V2Transaction{MinerFee: fee}
+	var sum types.Currency
+	for _, in := range ins {
+		txn.SiacoinInputs = append(txn.SiacoinInputs, types.V2SiacoinInput{Parent: in.Copy()})
+		sum = sum.Add(in.SiacoinOutput.Value)
+	}
+	txn.SiacoinOutputs = []types.SiacoinOutput{{Address: e.Addr, Value: sum.Sub(fee)}}
+	e.SignV2(cs, &txn)
+	return txn
+}
